@@ -47,12 +47,19 @@ def numResult (m : Mode) (z : Int) : R Value :=
   if z < 0 then (if z.natAbs > 32768 then .error .other else .ok (negNum m z.natAbs))
   else (if z.natAbs > 65535 then .error .other else .ok (posNum m z.natAbs))
 
-/-- the Python int the model computes from the two `.int` attributes (the neg flags are not consulted) -/
-def modelArith (op : Char) (a b : Nat) : Option Int :=
-  if op == '+' then some ((a : Int) + b)
-  else if op == '-' then some ((a : Int) - b)
-  else if op == '*' then some ((a : Int) * b)
-  else if op == '/' then (if b = 0 then none else some ((a / b : Nat) : Int))
+/-- `NumericValue.signed()`: the Python int a magnitude and its minus flag stand for -/
+def sInt (n : Nat) (neg : Bool) : Int := if neg then -(n : Int) else n
+
+@[simp] theorem sInt_false (n : Nat) : sInt n false = (n : Int) := rfl
+@[simp] theorem sInt_true (n : Nat) : sInt n true = -(n : Int) := rfl
+
+/-- the Python int the model computes from the two SIGNED operands (repair batch B2: the minus flags are
+consulted; division is `int(left / right)`, truncation towards zero) -/
+def modelArith (op : Char) (a b : Int) : Option Int :=
+  if op == '+' then some (a + b)
+  else if op == '-' then some (a - b)
+  else if op == '*' then some (a * b)
+  else if op == '/' then (if b = 0 then none else some (Int.tdiv a b))
   else some 0
 
 theorem numericOfStr_int (m : Mode) (hm : m = .extended ∨ m = .direct) (z : Int) :
@@ -81,17 +88,17 @@ theorem numericOfStr_int (m : Mode) (hm : m = .extended ∨ m = .direct) (z : In
 theorem resolve_expr_numeric (a b : Nat) (ha hb : Option Nat) (ma mb : Mode) (na nb : Bool)
     (op : Char) (m : Mode) (ae : Bool) (t : SymTab) :
     (Value.expr (.numeric a ha ma na) (.numeric b hb mb nb) op m ae).resolve t =
-      (match modelArith op a b with
+      (match modelArith op (sInt a na) (sInt b nb) with
        | none => .error .other
        | some z => numResult (resMode ma mb z) z) := by
   simp only [Value.resolve, Value.isExtendedLike, Value.mode]
-  change (match modelArith op a b with
+  change (match modelArith op (sInt a na) (sInt b nb) with
     | none => (.error .other : R Value)
     | some z => match numericOfStr (if z < 0 then '-' :: (toString z.natAbs).toList else (toString z.natAbs).toList)
         none (if (decide (z > 255) && exprMode ma mb == Mode.direct) = true then Mode.extended else exprMode ma mb) with
       | .ok nv => (.ok nv : R Value)
       | .error _ => .error .other) = _
-  cases modelArith op a b with
+  cases modelArith op (sInt a na) (sInt b nb) with
   | none => rfl
   | some z =>
     simp only [resMode_eq]
@@ -126,10 +133,11 @@ theorem resolve_congr_lookup (v : Value) (t1 t2 : SymTab) (h : ∀ k, t1.get? k 
 
 /-! ### calculate_address_offset -/
 
-/-- the Python int `calculate_address_offset` computes from the statement address `a` and the constant `k` -/
-def addrArith (op : Char) (a k : Nat) : Option Int :=
+/-- the Python int `calculate_address_offset` computes from the statement address `a` and the SIGNED constant `k`
+(repair batch B2) -/
+def addrArith (op : Char) (a : Nat) (k : Int) : Option Int :=
   if op == '+' then some ((a : Int) + k) else if op == '-' then some (((a : Int) - k) % 65536)
-  else if op == '*' then some ((a : Int) * k) else (if k = 0 then none else some ((a / k : Nat) : Int))
+  else if op == '*' then some ((a : Int) * k) else (if k = 0 then none else some (Int.tdiv (a : Int) k))
 
 /-- `NumericValue(z, size_hint=4, mode=EXTENDED)`; a value that does not fit is reported as a
 TranslationError (`diag`) since fix 8dc2b21/316e504 (it used to escape as `internal`) -/
@@ -145,13 +153,13 @@ theorem numericOfInt_ext (z : Int) :
 theorem addrOffset_addr_num (ss : List Stmt) (ai a k : Nat) (ma mk m : Mode) (hk : Option Nat) (nk ae : Bool)
     (op : Char) (h : addrIntOf ss ai = some a) :
     addrOffset ss (.expr (.address ai ma) (.numeric k hk mk nk) op m ae) =
-      (match addrArith op a k with | none => .diag | some z => addrResult z) := by
-  simp only [addrOffset, Value.isAddress, Value.isNumeric, Value.int?, if_true, Bool.false_eq_true, if_false]
+      (match addrArith op a (sInt k nk) with | none => .diag | some z => addrResult z) := by
+  simp only [addrOffset, Value.isAddress, Value.isNumeric, Value.isNegative, Value.int?, if_true, Bool.false_eq_true, if_false]
   simp only [h]
-  change (match addrArith op a k with
+  change (match addrArith op a (sInt k nk) with
     | none => Outcome.diag
     | some z => (match numericOfInt z (some 4) .extended with | .ok nv => Outcome.ok nv | .error _ => .diag)) = _
-  cases addrArith op a k with
+  cases addrArith op a (sInt k nk) with
   | none => rfl
   | some z => exact numericOfInt_ext z
 
@@ -160,18 +168,18 @@ theorem addrOffset_addr_num (ss : List Stmt) (ai a k : Nat) (ma mk m : Mode) (hk
 theorem addrOffset_num_addr (ss : List Stmt) (ai a k : Nat) (ma mk m : Mode) (hk : Option Nat) (nk ae : Bool)
     (op : Char) (h : addrIntOf ss ai = some a) :
     addrOffset ss (.expr (.numeric k hk mk nk) (.address ai ma) op m ae) =
-      (match addrArith op a k with | none => .diag | some z => addrResult z) := by
-  simp only [addrOffset, Value.isAddress, Value.isNumeric, Value.int?, if_true, Bool.false_eq_true, if_false]
+      (match addrArith op a (sInt k nk) with | none => .diag | some z => addrResult z) := by
+  simp only [addrOffset, Value.isAddress, Value.isNumeric, Value.isNegative, Value.int?, if_true, Bool.false_eq_true, if_false]
   simp only [h]
-  change (match addrArith op a k with
+  change (match addrArith op a (sInt k nk) with
     | none => Outcome.diag
     | some z => (match numericOfInt z (some 4) .extended with | .ok nv => Outcome.ok nv | .error _ => .diag)) = _
-  cases addrArith op a k with
+  cases addrArith op a (sInt k nk) with
   | none => rfl
   | some z => exact numericOfInt_ext z
 
 /-- `addrCombine` (the arithmetic half of `addrOffset`, see Lemmas/AddrOther.lean) in closed form -/
-theorem addrCombine_eq (op : Char) (a k : Nat) :
+theorem addrCombine_eq (op : Char) (a : Nat) (k : Int) :
     addrCombine op a k = (match addrArith op a k with | none => .diag | some z => addrResult z) := by
   change (match addrArith op a k with
     | none => Outcome.diag
@@ -185,7 +193,7 @@ result is computed from both addresses, `a_i op a_j` (before the repair the stat
 theorem addrOffset_addr_addr (ss : List Stmt) (ai aj a b : Nat) (ma mb m : Mode) (ae : Bool) (op : Char)
     (h : addrIntOf ss ai = some a) (h' : addrIntOf ss aj = some b) :
     addrOffset ss (.expr (.address ai ma) (.address aj mb) op m ae) =
-      (match addrArith op a b with | none => .diag | some z => addrResult z) := by
+      (match addrArith op a (b : Int) with | none => .diag | some z => addrResult z) := by
   rw [addrOffset_expr]
   simp only [Value.isAddress, if_true, Value.int?, addrOther_address, h, h']
   exact addrCombine_eq op a b
